@@ -109,6 +109,7 @@ func ShareWithConfig[T any](config ShareConfig[T]) func(Observable[T]) Observabl
 		}
 
 		return NewObservableWithContext(func(subscriberCtx context.Context, destination Observer[T]) Teardown {
+			verifPoint("operator_connectable:ShareWithConfig:lock#0", nil)
 			mu.Lock()
 
 			refCount++
@@ -117,6 +118,7 @@ func ShareWithConfig[T any](config ShareConfig[T]) func(Observable[T]) Observabl
 			currentSubject, currentSourceSubscription, createdSubject := getOrCreateSubject()
 
 			mu.Unlock()
+			verifPoint("operator_connectable:ShareWithConfig:unlocked#0", nil)
 
 			// Expected to be non-blocking.
 			// This is the subscription between the subject and the new observer.
@@ -133,9 +135,11 @@ func ShareWithConfig[T any](config ShareConfig[T]) func(Observable[T]) Observabl
 						currentSubject.NextWithContext,
 						func(ctx context.Context, err error) {
 							if config.ResetOnError {
+								verifPoint("operator_connectable:ShareWithConfig:lock#1", nil)
 								mu.Lock()
 								reset(currentSubject, currentSourceSubscription)
 								mu.Unlock()
+								verifPoint("operator_connectable:ShareWithConfig:unlocked#1", nil)
 							} else {
 								atomic.StoreInt32(&hasBeenResetOnError, 1)
 							}
@@ -144,9 +148,11 @@ func ShareWithConfig[T any](config ShareConfig[T]) func(Observable[T]) Observabl
 						},
 						func(ctx context.Context) {
 							if config.ResetOnComplete {
+								verifPoint("operator_connectable:ShareWithConfig:lock#2", nil)
 								mu.Lock()
 								reset(currentSubject, currentSourceSubscription)
 								mu.Unlock()
+								verifPoint("operator_connectable:ShareWithConfig:unlocked#2", nil)
 							} else {
 								atomic.StoreInt32(&hasBeenResetOnCompletion, 1)
 							}
@@ -165,6 +171,7 @@ func ShareWithConfig[T any](config ShareConfig[T]) func(Observable[T]) Observabl
 			return func() {
 				sub.Unsubscribe()
 
+				verifPoint("operator_connectable:ShareWithConfig:lock#3", nil)
 				mu.Lock()
 
 				refCount--
@@ -175,6 +182,7 @@ func ShareWithConfig[T any](config ShareConfig[T]) func(Observable[T]) Observabl
 				}
 
 				mu.Unlock()
+				verifPoint("operator_connectable:ShareWithConfig:unlocked#3", nil)
 			}
 		})
 	}
